@@ -13,10 +13,6 @@ Import ListNotations.
 Open Scope N_scope.
 Local Notation s_ := str_of_string.
 
-(* str(key) + '.txt' for every key, as json will list it *)
-Definition name_list {V : Type} (d : list (pykey * V)) : list pykey :=
-  map (fun kv => KStr (file_name (py_str (fst kv)))) d.
-
 (* two spellings are recognised: the in-place loop `for i, name in enumerate(l): l[i] = str(name) + '.txt'`
    and the comprehension `[str(name) + '.txt' for name in d]` *)
 Theorem config_filename_list_eq : forall (O : numops) (d : list (pykey * counter O)),
@@ -31,20 +27,6 @@ Qed.
 
 Lemma name_list_strs {V : Type} (d : list (pykey * V)) : map py_str (name_list d) = filename_list (str_keys d).
 Proof. unfold name_list, filename_list, str_keys. rewrite !map_map. reflexivity. Qed.
-
-(* what the model expects of the configuration of a parser object *)
-Definition expected_names {O : numops} (pp : parser_obj O) : list (str * list pykey) :=
-  [ (s_ "START", [KStr (s_ "grammar.txt")]);
-    (s_ "BASE_A", name_list (po_count_alpha pp));
-    (s_ "BASE_D", name_list (po_count_digits pp));
-    (s_ "BASE_O", name_list (po_count_other pp));
-    (s_ "BASE_K", name_list (po_count_keyboard pp));
-    (s_ "BASE_X", [KStr (s_ "1.txt")]);
-    (s_ "BASE_Y", [KStr (s_ "1.txt")]);
-    (s_ "CAPITALIZATION", name_list (po_count_alpha_masks pp)) ].
-
-Definition expected_dirs : list (str * str) :=
-  (s_ "START", s_ "Grammar") :: config_dirs.
 
 Theorem config_create_eq : forall (O : numops) (pp : parser_obj O),
   exists cfg, py_create_config_file O tt tt pp = Ok cfg /\
